@@ -41,13 +41,22 @@ type DAttr struct {
 	Id int `json:"id"`
 }
 
+// DSpecial overrides ONE component with a special IEEE-754 value (SpecialValue).
+type DSpecial struct {
+	A int `json:"a"` // mesh: index into attrs ; GPU instance: 0 translation, 1 rotation, 2 scale
+	I int `json:"i"` // mesh: vertex (taken modulo nv) ; instance: unused
+	C int `json:"c"` // component (taken modulo the arity)
+	K int `json:"k"` // kind of value, see SpecialValue
+}
+
 type DMesh struct {
-	Topo  string  `json:"topo"`
-	Nv    int     `json:"nv"`
-	Ni    int     `json:"ni"`  // number of indices
-	Idx   []int   `json:"idx"` // explicit indices; empty with ni>0 => pattern nv-1-(j mod nv)
-	Attrs []DAttr `json:"attrs"`
-	VSeed int     `json:"vseed"`
+	Topo  string     `json:"topo"`
+	Nv    int        `json:"nv"`
+	Ni    int        `json:"ni"`  // number of indices
+	Idx   []int      `json:"idx"` // explicit indices; empty with ni>0 => pattern nv-1-(j mod nv)
+	Attrs []DAttr    `json:"attrs"`
+	VSeed int        `json:"vseed"`
+	Spec  []DSpecial `json:"spec"` // special values written over the generated data (absent = none)
 }
 
 type DTex struct {
@@ -85,9 +94,10 @@ type DMat struct {
 }
 
 type DTrs struct {
-	T []int `json:"t"` // empty = absent (models) ; numerators over Div
-	R []int `json:"r"`
-	S []int `json:"s"`
+	T  []int      `json:"t"` // empty = absent (models) ; numerators over Div
+	R  []int      `json:"r"`
+	S  []int      `json:"s"`
+	Sp []DSpecial `json:"sp"` // GPU instances only: special values written over t / r / s
 }
 
 type DModel struct {
@@ -208,6 +218,45 @@ func value(vmode string, vseed, id, ar, i, c int, rng *rand.Rand) float64 {
 	return float64(k) / 8
 }
 
+// NSpecial is the number of kinds SpecialValue knows (1..NSpecial).
+const NSpecial = 14
+
+// SpecialValue: the doubles the ordinary value tables never produce. What the
+// writer has to do with them is said by GltfDoc.tla, not here.
+func SpecialValue(k int) float64 {
+	switch k {
+	case 1:
+		return math.NaN()
+	case 2:
+		return math.Inf(1)
+	case 3:
+		return math.Inf(-1)
+	case 4:
+		return math.Copysign(0, -1)
+	case 5:
+		return math.MaxFloat32
+	case 6:
+		return -math.MaxFloat32
+	case 7:
+		return math.SmallestNonzeroFloat32 // subnormal single
+	case 8:
+		return 1e39 // finite double, +Inf as a single
+	case 9:
+		return -1e39
+	case 10:
+		return 1e-50 // finite double, +0 as a single
+	case 11:
+		return math.MaxFloat64
+	case 12:
+		return math.Float64frombits(0xFFF8000000ABCDEF) // NaN with sign and payload
+	case 13:
+		return math.MaxFloat32 * (1 + 1.0/(1<<30)) // not a single; rounds DOWN to MaxFloat32
+	case 14:
+		return -math.SmallestNonzeroFloat32 / 4 // rounds to -0
+	}
+	panic("unknown special value kind " + strconv.Itoa(k))
+}
+
 // ---------------------------------------------------------------------------
 // building the real scene
 // ---------------------------------------------------------------------------
@@ -229,38 +278,48 @@ func buildMesh(d DMesh, vmode string) modeling.Mesh {
 		}
 	}
 	m := modeling.NewMesh(project.TopoOf(d.Topo), idx)
-	for _, a := range d.Attrs {
+	for ai, a := range d.Attrs {
 		rng := rand.New(rand.NewSource(int64(d.VSeed)*1000003 + int64(a.Id)*101 + int64(a.Ar)))
 		name := project.AttrName(a.Id)
+		if a.Ar < 1 || a.Ar > 4 {
+			panic(fmt.Sprintf("bad arity %d", a.Ar))
+		}
+		comp := make([][4]float64, d.Nv)
+		for i := range comp {
+			for c := 0; c < a.Ar; c++ {
+				comp[i][c] = value(vmode, d.VSeed, a.Id, a.Ar, i, c, rng)
+			}
+		}
+		for _, sp := range d.Spec {
+			if sp.A == ai && d.Nv > 0 {
+				comp[((sp.I%d.Nv)+d.Nv)%d.Nv][((sp.C%a.Ar)+a.Ar)%a.Ar] = SpecialValue(sp.K)
+			}
+		}
 		switch a.Ar {
 		case 1:
 			data := make([]float64, d.Nv)
 			for i := range data {
-				data[i] = value(vmode, d.VSeed, a.Id, 1, i, 0, rng)
+				data[i] = comp[i][0]
 			}
 			m = m.SetFloat1Attribute(name, data)
 		case 2:
 			data := make([]vector2.Float64, d.Nv)
 			for i := range data {
-				data[i] = vector2.New(value(vmode, d.VSeed, a.Id, 2, i, 0, rng), value(vmode, d.VSeed, a.Id, 2, i, 1, rng))
+				data[i] = vector2.New(comp[i][0], comp[i][1])
 			}
 			m = m.SetFloat2Attribute(name, data)
 		case 3:
 			data := make([]vector3.Float64, d.Nv)
 			for i := range data {
-				data[i] = vector3.New(value(vmode, d.VSeed, a.Id, 3, i, 0, rng), value(vmode, d.VSeed, a.Id, 3, i, 1, rng),
-					value(vmode, d.VSeed, a.Id, 3, i, 2, rng))
+				data[i] = vector3.New(comp[i][0], comp[i][1], comp[i][2])
 			}
 			m = m.SetFloat3Attribute(name, data)
 		case 4:
 			data := make([]vector4.Float64, d.Nv)
 			for i := range data {
-				data[i] = vector4.New(value(vmode, d.VSeed, a.Id, 4, i, 0, rng), value(vmode, d.VSeed, a.Id, 4, i, 1, rng),
-					value(vmode, d.VSeed, a.Id, 4, i, 2, rng), value(vmode, d.VSeed, a.Id, 4, i, 3, rng))
+				data[i] = vector4.New(comp[i][0], comp[i][1], comp[i][2], comp[i][3])
 			}
 			m = m.SetFloat4Attribute(name, data)
-		default:
-			panic(fmt.Sprintf("bad arity %d", a.Ar))
 		}
 	}
 	return m
@@ -321,6 +380,14 @@ func div(d Desc) float64 {
 
 func v3of(v []int, dv float64) vector3.Float64 {
 	return vector3.New(float64(v[0])/dv, float64(v[1])/dv, float64(v[2])/dv)
+}
+
+func fracs(v []int, dv float64) []float64 {
+	out := make([]float64, len(v))
+	for i, x := range v {
+		out[i] = float64(x) / dv
+	}
+	return out
 }
 
 func quatOf(v []int, dv float64) quaternion.Quaternion {
@@ -398,7 +465,13 @@ func Build(d Desc) Built {
 			pm.Scale = &v
 		}
 		for _, in := range dm.Inst {
-			pm.GpuInstances = append(pm.GpuInstances, trs.New(v3of(in.T, dv), quatOf(in.R, dv), v3of(in.S, dv)))
+			t := [][]float64{fracs(in.T, dv), fracs(in.R, dv), fracs(in.S, dv)}
+			for _, sp := range in.Sp {
+				part := t[((sp.A%3)+3)%3]
+				part[((sp.C%len(part))+len(part))%len(part)] = SpecialValue(sp.K)
+			}
+			pm.GpuInstances = append(pm.GpuInstances, trs.New(vector3.New(t[0][0], t[0][1], t[0][2]),
+				quaternion.New(vector3.New(t[1][0], t[1][1], t[1][2]), t[1][3]), vector3.New(t[2][0], t[2][1], t[2][2])))
 		}
 		b.Scene.Models = append(b.Scene.Models, pm)
 	}
